@@ -38,3 +38,37 @@ package dawn
 //@ (assert (forall ((x Str)) (=> (has1 x) (has2 x))))  ; rely grow between the two sections
 //@ (assert (not (has2 k)))                             ; the second section invoked the callable (callsite only-when-absent)
 //@ >>>
+
+// ---------------------------------------------------------------- C18: line writer
+
+// n_print     - number of Print events delivered by this goroutine
+// printed_len - bytes delivered so far, counting one newline per delivered line
+//@ ghost n_print int threadlocal = 0
+//@ ghost printed_len int threadlocal = 0
+
+//@ func (dawn.Events).Print
+//@   requires oneline: forall i: int :: 0 <= i && i < len(line) ==> line[i] != 10
+//@   ensures  n_print == old(n_print) + 1 && printed_len == old(printed_len) + len(line) + 1
+//@   modifies n_print, printed_len
+
+//@ func (*dawn.lineWriter).Write
+//@   requires l != nil
+//@   requires pending-oneline: forall i: int :: 0 <= i && i < len(sb[l]) ==> sb[l][i] != 10
+//@   ensures  consumed: result.0 == len(b) && result.1 == nil
+//@   ensures  accounted: printed_len + len(sb[l]) == old(printed_len) + len(old(sb)[l]) + len(b)
+//@   ensures  pending-oneline: forall i: int :: 0 <= i && i < len(sb[l]) ==> sb[l][i] != 10
+//@   ensures  others: forall o: ref :: o != l ==> sb[o] == old(sb)[o]
+//@   modifies sb, n_print, printed_len
+//@   loop 0: invariant count: w + len(b) == len(old(b)) && w >= 0
+//@   loop 0: invariant accounted: printed_len + len(sb[l]) + len(b) == old(printed_len) + len(old(sb)[l]) + len(old(b))
+//@   loop 0: invariant pending-oneline: forall i: int :: 0 <= i && i < len(sb[l]) ==> sb[l][i] != 10
+//@   loop 0: invariant others: forall o: ref :: o != l ==> sb[o] == old(sb)[o]
+
+//@ func (*dawn.lineWriter).Flush
+//@   requires l != nil
+//@   requires pending-oneline: forall i: int :: 0 <= i && i < len(sb[l]) ==> sb[l][i] != 10
+//@   ensures  empty: len(sb[l]) == 0
+//@   ensures  delivered-once: n_print == old(n_print) + ite(len(old(sb)[l]) != 0, 1, 0)
+//@   ensures  accounted: printed_len == old(printed_len) + ite(len(old(sb)[l]) != 0, len(old(sb)[l]) + 1, 0)
+//@   ensures  result == nil
+//@   modifies sb, n_print, printed_len
